@@ -11,7 +11,14 @@ partial def parseProg (j : Json) : Option Prog := do
   match k with
   | "w" => some (.write (.ins (← jNat? (arg a 1))) (← jBool? (arg a 2)))
   | "d" => some (.write (.del (← jNat? (arg a 1))) (← jBool? (arg a 2)))
+  | "u" => some (.write .nop (← jBool? (arg a 2)))      -- UPDATE of the non-key column: the set of ids is unchanged
   | "q" => some (.read (← jBool? (arg a 1)))
+  | "end" =>
+    -- ["end", how, must]; how 0 = h.Rollback() inside the function, 1 = context cancelled + database/sql's rollback finished:
+    -- the same driver-level event; how 2 (h.Commit() inside the function) is outside the model (end-to-end oracle only)
+    match (← jNat? (arg a 1)) with
+    | 0 | 1 => some (.endtx (← jBool? (arg a 2)))
+    | _ => none
   | "sp" => some (.sp (← jNat? (arg a 1)) (← jBool? (arg a 2)))
   | "rb" => some (.rb (← jNat? (arg a 1)) (← jBool? (arg a 2)))
   | "blk" =>
@@ -57,6 +64,14 @@ def tokJ : K × Bool → Json
       | .B => "B" | .C => "C" | .R => "R" | .S => "S" | .T => "T" | .W => "W" | .Q => "Q"
     Json.str (if f then s ++ "!" else s)
 
+def parsePool (j : Json) : Option Pool := do
+  match (← jStr? j) with
+  | "sqlDB" => some .sqlDB | "prepDB" => some .prepDB | "sqlTx" => some .sqlTx | "prepTx" => some .prepTx
+  | _ => none
+
+def poolJ : Pool → Json
+  | .sqlDB => Json.str "sqlDB" | .prepDB => Json.str "prepDB" | .sqlTx => Json.str "sqlTx" | .prepTx => Json.str "prepTx"
+
 def parseCfg (j : Json) : Option Cfg := do
   let g (k : String) : Option Bool := (j.getObjVal? k).toOption >>= jBool?
   some { prep := ← g "prep", dis := ← g "dis", skip := ← g "skip" }
@@ -64,7 +79,8 @@ def parseCfg (j : Json) : Option Cfg := do
 end HC04
 open HC04 in
 /-- ["tx.run", cfg, [fault call numbers], [initial ids], body, allowRb] -> observation of the model run
-    ["tx.spec", cfg, mask, initial, body] -> the functional reference -/
+    ["tx.spec", cfg, mask, initial, body] -> the functional reference
+    ["tx.writest", …] -> `writeSt` (Statement.ConnPool after a write) -/
 def handleC04 (op : String) (args : Array Json) : Option Json := do
   match op with
   | "tx.run" =>
@@ -82,6 +98,15 @@ def handleC04 (op : String) (args : Array Json) : Option Json := do
       ("txof", natListJ db.txof.reverse),
       ("reads", Json.arr (db.reads.reverse.map natListJ).toArray),
       ("stale", Json.bool db.stale), ("rbfault", Json.bool db.rbFault)])
+  | "tx.writest" =>
+    -- ["tx.writest", skip, errNil, beginOk, stmtPool, cfgPool] -> Statement.ConnPool after a create/update/delete pipeline
+    let skip ← jBool? (arg args 1)
+    let errNil ← jBool? (arg args 2)
+    let beginOk ← jBool? (arg args 3)
+    let sp ← parsePool (arg args 4)
+    let cp ← parsePool (arg args 5)
+    let s := writeSt skip errNil beginOk { stmtPool := sp, cfgPool := cp }
+    some (Json.mkObj [("pool", poolJ s.stmtPool), ("started", Json.bool s.started)])
   | "tx.spec" =>
     let cfg ← parseCfg (arg args 1)
     let mask ← (← jArr? (arg args 2)).toList.mapM jNat?
